@@ -165,7 +165,7 @@ def _read_shapes(peek=False):
     out = []
     kinds = [('int',)] + [('dtype', n, 'len') for n in ('uint', 'int', 'uintbe', 'intbe', 'uintle', 'intle', 'hex', 'oct',
                                                        'bin', 'bits', 'bytes', 'pad')] \
-        + [('dtype', 'bool', None)] \
+        + [('dtype', n, 'neglen') for n in ('uint', 'int', 'bits', 'bin', 'pad', 'bytes')] + [('dtype', 'bool', None)] \
         + [('str', 'uint:12'), ('str', 'hex'), ('str', 'bin'), ('str', 'bytes'), ('str', 'bits'), ('str', 'oct'),
            ('str', 'ue'), ('str', 'se')]
     for cls, st in STREAM_STATES:
@@ -176,6 +176,15 @@ def _read_shapes(peek=False):
                     return [o, S.int('n')], {}
                 if k[0] == 'str':
                     return [o, k[1]], {}
+                if k[2] == 'neglen':
+                    # a Dtype with a negative length, if one can be created at all
+                    n = S.int('n')
+                    S.assume(n < 0)
+                    from pyvc.interp import PyRaise
+                    try:
+                        return [o, _mk_dtype(interp, k[1], n)], {}
+                    except PyRaise:
+                        raise sym.Infeasible()
                 if k[2] == 'len':
                     n = S.int('n')
                     unit, ok, _ = FIXED.get(k[1], (1, lambda L: L >= 0, None))
@@ -191,10 +200,10 @@ def _read_shapes(peek=False):
                     return [o, vals['n']], {}
                 if k[0] == 'str':
                     return [o, k[1]], {}
-                if k[2] == 'len':
+                if k[2] in ('len', 'neglen'):
                     return [o, bitstring.Dtype(k[1], vals['n'])], {}
                 return [o, bitstring.Dtype(k[1])], {}
-            out.append(Shape(f'{cls}/{st}/' + '-'.join(str(x) for x in k), build, real))
+            out.append(Shape(f'{cls}/{st}/' + '-'.join(str(x) for x in k), build, real, may_be_empty=(len(k) > 2 and k[2] == 'neglen')))
     return out
 
 
@@ -239,6 +248,8 @@ def _read_core(C, self, fmt, advance=True):
                 C.throw('ValueError')
             L = rem // unit
     Lb = L * unit
+    if sym.truth(Lb < 0):
+        C.throw('ValueError')          # a negative amount cannot be read (as for an integer argument)
     if sym.truth(Lb > rem):
         C.throw('ReadError')
     val = decode(C, name, sub(V, p, p + Lb), self.cls)
